@@ -295,6 +295,12 @@ def run(ctx):
     for (p, tev) in info:
         period = fold(tev["args"][0]) if tev["args"] else None
         okp = period is not None and is_const(period) and period[1] > 0
+        from .shared import config_option as _cfgopt
+        _pc = _cfgopt(period) if period is not None else None
+        if _pc is not None:
+            _d = fold(_pc[1]) if _pc[1] is not None else None
+            okp = _d is None or (is_const(_d) and (_d[1] is None or _d[1] > 0))
+            ctx.note("the timer period is the option %r: only its default is checked" % _pc[0])
         ctx.ob("R13.timer", "timer period is a positive constant", okp, tev,
                "" if okp else "period is %s" % show(period)[:40])
         # result parented to the returned service
@@ -373,7 +379,7 @@ def run(ctx):
     # R13.noraise
     e3 = e3mod.get(model)
     for f in e3.may_raise():
-        if any(s in (R.sweep_all, R.sweep_app) for s in f.event["stack"]):
+        if any(s in (R.sweep_all, R.sweep_app) for x in e3.occurrences(f) for s in x["stack"]):
             ctx.ob("R13.noraise", "may-raise %s at %s" % (f.may_raise, f.construct), False,
                    f.site, f.detail + "; the sweep aborts at this app and never empties "
                    "the apps sorted after it", render_path(f.path.events) if f.path else None)
